@@ -266,3 +266,24 @@ func catalog(nSpecs int, specSeed func(i int) *circuits.Spec) []entry {
 	)
 	return es
 }
+
+// Exported is one catalogue entry as seen by other monitors (C09).
+type Exported struct {
+	Name      string
+	Field     ecc.ID
+	R1CS      bool
+	SCS       bool
+	New       func() frontend.Circuit
+	Opts      []frontend.CompileOption
+	Heavy     bool
+	Generated bool
+}
+
+// Catalog returns the gadget circuits of the catalogue (without the generated arithmetic family).
+func Catalog() []Exported {
+	var out []Exported
+	for _, e := range catalog(0, nil) {
+		out = append(out, Exported{Name: e.name, Field: e.field, R1CS: e.r1cs, SCS: e.scs, New: e.newCirc, Opts: e.opts, Heavy: e.heavy})
+	}
+	return out
+}
